@@ -182,6 +182,7 @@ theorem C16_clock_step (n : Net) (op : Op) : Net.Rel (ClockR n.time) n (step n o
   cases op with
   | req y c => exact (clock_exec c n y).rel
   | enableUser y u => exact F.toPre.enableUser n y u (fun a => clock_same _ a _ rfl rfl rfl rfl)
+  | addUserBypass y u p adm => exact F.toPre.addUserBypass n y u p adm (fun a _ => clock_same _ a _ rfl rfl rfl rfl)
   | localLogin y u p => simp only [step]; rw [opLocalLogin_fst]; exact (clock_localLogin n y u p).rel
   | localLogout y => exact F.localLogout n y
   | tick => exact F.tick n
@@ -254,6 +255,7 @@ theorem C16_clock_moves_only_by_accepted_command (n : Net) (hf : FreshIds n) (op
   have F := remSame_frame
   cases op with
   | enableUser y' u => exact (contra (F.toPre.enableUser n y' u (fun a => F.refl y' a))).elim
+  | addUserBypass y' u p adm => exact (contra (F.toPre.addUserBypass n y' u p adm (fun a _ => F.refl y' a))).elim
   | localLogin y' u p =>
     refine (contra ?_).elim
     simp only [step]; rw [opLocalLogin_fst]; exact F.toPre.localLogin n y' u p (fun a _ => F.refl y' a)
@@ -458,6 +460,7 @@ theorem step_time_ne_tick (n : Net) (op : Op) (h : op ≠ .tick) : (step n op).1
   cases op with
   | req y c => exact exec_time c n y
   | enableUser y u => rcases opEnableUser_cases n y u with h | h <;> simp [step, h]
+  | addUserBypass y u p adm => rcases opAddUserBypass_cases n y u p adm with h | ⟨_, _, _, h⟩ <;> simp [step, h]
   | localLogin y u p => simp only [step]; rw [opLocalLogin_fst]; exact localLogin_time n y u p
   | localLogout y => rcases opLocalLogout_cases n y with h | h <;> simp [step, h]
   | tick => exact (h rfl).elim
